@@ -1,4 +1,5 @@
 import Vflow.Model.Options
+import Vflow.Proofs.OptionsCfg
 import Vflow.Gen.OptionsTbl
 /-!
 # C17 — configuration sources are applied in the documented order
@@ -63,8 +64,10 @@ theorem apply_three (d : Settings) (env file flags : Source) (f : String) :
 
 /-- **C17 (precedence)**: for every option table whose flags are registered with the current value,
 every environment, every file content and every command line: if option loading reaches the end of
-`flagSet` (no `log.Fatal`, no flag error, `-config` not the last word), every setting has the value
-given on the command line if given there, otherwise the one in the file named by `-config` if present
+`flagSet` (no `log.Fatal`, no flag error, `-config` / `--config` not the last word), every setting has the
+value given on the command line if given there, otherwise the one in the file `loadCfg` locates (the first
+word of `os.Args` that spells the config flag in any of the four ways package `flag` accepts —
+`config_word_spec`, `precedence_spelling`, `precedence_config_flag` say which file that is) if present
 there, otherwise the one of `VFLOW_<KEY>` if set and non-empty, otherwise the built-in default. -/
 theorem precedence (tbl : List Row) (inp : Inputs) (s : Settings) (hc : RegistersCurrent tbl)
     (h : run tbl canonicalStages inp = .ok s) :
@@ -76,7 +79,8 @@ theorem precedence (tbl : List Row) (inp : Inputs) (s : Settings) (hc : Register
   simp [flagSource, hp]
 
 /-- **C17 (when loading completes)**: the canonical run ends in settings exactly when no environment
-value is malformed, `-config` is not the last word and the command line parses -/
+value is malformed, the first word spelling the config flag is not `-config` / `--config` as the last
+word, and the command line parses -/
 theorem run_ok_iff (tbl : List Row) (inp : Inputs) (hc : RegistersCurrent tbl) :
     (∃ s, run tbl canonicalStages inp = .ok s) ↔
       (envFatal tbl inp.env = false ∧ (cfgSource tbl inp).isSome ∧
@@ -122,15 +126,124 @@ theorem fileSource_same (tbl : List Row) (m : String → Option Val) (r : Row) (
     fileSource tbl m r.field = some v := by
   simp [fileSource, hr, hy, hm, hk]
 
-/-- without a readable file named by `-config` (or the default path) the file source is empty -/
+/-- without a readable file named by the config flag (or the default path) the file source is empty -/
 theorem cfgSource_absent (tbl : List Row) (inp : Inputs) (h : ∀ p, inp.readFile p = none) (src : Source)
     (hs : cfgSource tbl inp = some src) : ∀ f, src f = none := by
   intro f
-  unfold cfgSource at hs
+  unfold cfgSource cfgSourceWith at hs
   split at hs
   · simp at hs
-  · simp [h] at hs; rw [← hs]
-  · simp [h] at hs; rw [← hs]
+  · simp [fileAt, h] at hs; rw [← hs]
+  · simp [fileAt, h] at hs; rw [← hs]
+
+/-! ## which file: the spellings of the config flag (F22) -/
+
+/-- **the spelling test of `loadCfg` is package `flag`'s**: `loadCfg` takes a word of `os.Args` for the
+config flag (`-config`, `--config`: value in the next word; `-config=V`, `--config=V`: value `V`) exactly
+when package `flag` reads that word as the flag `config` (`flagCfgWord`: one or two dashes, the name up to
+the first `=`), with the same inline value — for every string. -/
+theorem config_word_spec (s : String) : cfgWord s = flagCfgWord s := cfgWord_eq_flagCfgWord s
+
+/-- the four ways package `flag` accepts the flag `config` with the value `p` -/
+def cfgSpellings (p : String) : List (List String) :=
+  [["-config", p], ["--config", p], ["-config=" ++ p], ["--config=" ++ p]]
+
+theorem cfgWord_eq_spelling (pre : String) (p : String)
+    (h : pre = "-config=" ∨ pre = "--config=") : cfgWord (pre ++ p) = some (some p) := by
+  rw [cfgWord_eq_flagCfgWord]
+  have := flagCfgWord_eq (s := pre ++ p) (v := p.toList)
+    (by rcases h with h | h <;> subst h <;> simp [String.toList_append, cfgName] <;> rfl)
+  rw [this, String.ofList_toList]
+
+/-- `loadCfg` finds the path in each of the four spellings, wherever the flag stands, as long as no
+earlier word spells the config flag -/
+theorem findConfig_spelling (pre post : List String) (p : String) (w : List String) (hw : w ∈ cfgSpellings p)
+    (hpre : ∀ x ∈ pre, cfgWord x = none) : findConfig (pre ++ w ++ post) = some (some p) := by
+  induction pre with
+  | nil =>
+    simp only [cfgSpellings, List.mem_cons, List.not_mem_nil, or_false] at hw
+    rcases hw with hw | hw | hw | hw <;> subst hw
+    · have : cfgWord "-config" = some none := by decide
+      simp [findConfig, this]
+    · have : cfgWord "--config" = some none := by decide
+      simp [findConfig, this]
+    · simp [findConfig, cfgWord_eq_spelling "-config=" p (Or.inl rfl)]
+    · simp [findConfig, cfgWord_eq_spelling "--config=" p (Or.inr rfl)]
+  | cons a pre ih =>
+    have ha : cfgWord a = none := hpre a (by simp)
+    have := ih (fun x hx => hpre x (List.mem_cons_of_mem _ hx))
+    simpa [findConfig, ha] using this
+
+/-- **C17 for every spelling of the config flag**: whichever of `-config p`, `--config p`, `-config=p`,
+`--config=p` the command line carries (anywhere, no earlier word spelling the config flag), the file
+that takes part in the precedence is the one at `p`. -/
+theorem precedence_spelling (tbl : List Row) (inp : Inputs) (s : Settings) (hc : RegistersCurrent tbl)
+    (h : run tbl canonicalStages inp = .ok s)
+    (pre post : List String) (p : String) (w : List String) (hw : w ∈ cfgSpellings p)
+    (hargs : inp.arg0 :: inp.args = pre ++ w ++ post) (hpre : ∀ x ∈ pre, cfgWord x = none) :
+    ∀ f, s f = resolve (defaults tbl) (envSource tbl inp.env) (fileAt tbl inp p) (flagSource tbl inp.args) f := by
+  obtain ⟨file, hcfg, hs⟩ := precedence tbl inp s hc h
+  have hfind := findConfig_spelling pre post p w hw hpre
+  rw [← hargs] at hfind
+  simp only [cfgSource, cfgSourceWith, hfind, Option.some.injEq] at hcfg
+  rw [hcfg]; exact hs
+
+/-- the values package `flag` assigns to its `config` variable, in command-line order -/
+def flagConfigs (tbl : List Row) (args : List String) : List String :=
+  match parseArgs (configReg :: regsOf tbl) (args.length + 1) args with
+  | .ok l => cfgAssigns l
+  | _ => []
+
+/-- what `flag.Parse` leaves in the `config` variable: the last value given, else the registered default -/
+def flagConfigPath (tbl : List Row) (args : List String) : String :=
+  (flagConfigs tbl args).getLast?.getD defaultCfg
+
+/-- `loadCfg` reads the first value package `flag` binds to `config` (else the default path), provided
+every word of `os.Args` that spells the config flag is read by package `flag` as the config flag -/
+theorem cfgSource_eq_first_flag_value (tbl : List Row) (inp : Inputs) (l : List (Option String × Val))
+    (hp : parseArgs (configReg :: regsOf tbl) (inp.args.length + 1) inp.args = .ok l)
+    (hw : cfgWords (inp.arg0 :: inp.args) = (cfgAssigns l).length) :
+    cfgSource tbl inp = some (fileAt tbl inp ((cfgAssigns l).head?.getD defaultCfg)) := by
+  have hregs := cfgRegs_table tbl
+  have hle := cfgAssigns_le_cfgWords hregs _ _ _ hp
+  have hfind : findConfig (inp.arg0 :: inp.args) = (cfgAssigns l).head?.map some := by
+    cases h0 : cfgWord inp.arg0 with
+    | none =>
+      rw [cfgWords_cons_none h0] at hw
+      rw [findConfig_cons_none h0]
+      exact findConfig_eq_first_assign hregs _ _ _ hp hw
+    | some x =>
+      rw [cfgWords_cons_some h0] at hw
+      omega
+  simp only [cfgSource, cfgSourceWith, hfind]
+  cases (cfgAssigns l).head? <;> rfl
+
+/-- **C17 with the file package `flag` names**: if every word of `os.Args` that spells the config flag
+is read by package `flag` as the config flag (as many such words as assignments to `config`: none is the
+program name, the value of another flag, or behind the end of the flags) and the flag is given at most
+once, the file that takes part in the precedence is the one whose path `flag.Parse` leaves in `config`
+(the registered default `/etc/vflow/vflow.conf` when not given).  Both hypotheses are necessary:
+`config_twice_counterexample`, `config_behind_terminator_counterexample`, `config_as_value_counterexample`. -/
+theorem precedence_config_flag (tbl : List Row) (inp : Inputs) (s : Settings) (hc : RegistersCurrent tbl)
+    (h : run tbl canonicalStages inp = .ok s)
+    (hw : cfgWords (inp.arg0 :: inp.args) = (flagConfigs tbl inp.args).length)
+    (h1 : (flagConfigs tbl inp.args).length ≤ 1) :
+    ∀ f, s f = resolve (defaults tbl) (envSource tbl inp.env)
+      (fileAt tbl inp (flagConfigPath tbl inp.args)) (flagSource tbl inp.args) f := by
+  obtain ⟨_, file, l, hcfg, hp, _⟩ := run_canonical tbl inp s hc h
+  obtain ⟨file', hcfg', hs⟩ := precedence tbl inp s hc h
+  have hfc : flagConfigs tbl inp.args = cfgAssigns l := by simp [flagConfigs, hp]
+  rw [hfc] at hw h1
+  have := cfgSource_eq_first_flag_value tbl inp l hp hw
+  rw [hcfg'] at this
+  injection this with this
+  have hpath : flagConfigPath tbl inp.args = (cfgAssigns l).head?.getD defaultCfg := by
+    unfold flagConfigPath; rw [hfc]
+    match hl : cfgAssigns l with
+    | [] => rfl
+    | [a] => rfl
+    | a :: b :: r => rw [hl] at h1; simp at h1
+  rw [hpath, ← this]; exact hs
 
 /-! ## the other orders are wrong -/
 
@@ -151,6 +264,54 @@ def valueOf (o : Outcome Settings) (f : String) : Option Val :=
 
 /-- non-vacuity of `precedence`: a concrete run completes; the file beats the environment -/
 example : valueOf (run tbl1 canonicalStages inpEnvFile) "P" = some (.int 2) := by decide
+
+/-- … with each of the four spellings of the config flag (non-vacuity of `precedence_spelling`) -/
+example : (cfgSpellings "c").map (fun w => valueOf (run tbl1 canonicalStages { inpEnvFile with args := w }) "P")
+    = [some (.int 2), some (.int 2), some (.int 2), some (.int 2)] := by decide
+
+/-- non-vacuity of `precedence_config_flag`: its hypotheses hold for the four spellings, and the path is `c` -/
+example : (cfgSpellings "c").all (fun w =>
+    cfgWords ("vflow" :: w) == (flagConfigs tbl1 w).length && (flagConfigs tbl1 w).length == 1 &&
+    flagConfigPath tbl1 w == "c") = true := by decide
+
+/-- the scan of `os.Args` before the repair of F22: only the exact word `-config` -/
+def findConfigOld : List String → Option (Option String)
+  | [] => none
+  | a :: rest => if a = "-config" then some rest.head? else findConfigOld rest
+
+/-- **F22**: for `--config c`, `-config=c`, `--config=c` the old scan finds nothing — the file is ignored
+and the environment value stands where the documented rule gives the file's — while package `flag` binds
+`c` to `config` for all four; the repaired scan finds `c` for all four. -/
+theorem old_locate_counterexample :
+    (cfgSpellings "c").map (fun w => findConfigOld ("vflow" :: w)) = [some (some "c"), none, none, none] ∧
+    (cfgSpellings "c").map (fun w => findConfig ("vflow" :: w))
+      = [some (some "c"), some (some "c"), some (some "c"), some (some "c")] ∧
+    (cfgSpellings "c").map (fun w => flagConfigPath tbl1 w) = ["c", "c", "c", "c"] ∧
+    (cfgSpellings "c").map (fun w => (cfgSourceWith findConfigOld tbl1 { inpEnvFile with args := w }).map (· "P"))
+      = [some (some (.int 2)), some none, some none, some none] ∧
+    (cfgSpellings "c").map (fun w => (cfgSource tbl1 { inpEnvFile with args := w }).map (· "P"))
+      = [some (some (.int 2)), some (some (.int 2)), some (some (.int 2)), some (some (.int 2))] := by decide
+
+/-- `-config a -config c`: `loadCfg` reads the first (`a`), package `flag` keeps the last (`c`) -/
+theorem config_twice_counterexample :
+    findConfig ["vflow", "-config", "a", "-config", "c"] = some (some "a") ∧
+    flagConfigPath tbl1 ["-config", "a", "-config", "c"] = "c" ∧
+    cfgWords ["vflow", "-config", "a", "-config", "c"] = (flagConfigs tbl1 ["-config", "a", "-config", "c"]).length := by
+  decide
+
+/-- `-- -config c`: behind the end of the flags package `flag` does not read the word, `loadCfg` does -/
+theorem config_behind_terminator_counterexample :
+    findConfig ["vflow", "--", "-config", "c"] = some (some "c") ∧
+    flagConfigPath tbl1 ["--", "-config", "c"] = defaultCfg ∧
+    (flagConfigs tbl1 ["--", "-config", "c"]).length ≤ 1 := by decide
+
+/-- `-l -config c` (`l` a string flag): `-config` is the value of `-l` for package `flag` (and `c` ends the
+flags), `loadCfg` takes it for the config flag -/
+theorem config_as_value_counterexample :
+    findConfig ["vflow", "-l", "-config", "c"] = some (some "c") ∧
+    flagConfigPath [⟨"L", .str, "l", "l", .str "", .current⟩] ["-l", "-config", "c"] = defaultCfg ∧
+    flagSource [⟨"L", .str, "l", "l", .str "", .current⟩] ["-l", "-config", "c"] "L" = some (.str "-config") := by
+  decide
 
 /-- loading the file before the environment inverts the documented order (environment would beat the file) -/
 theorem file_before_env_counterexample :
@@ -237,5 +398,28 @@ theorem precedence_generated (inp : Inputs) (s : Settings)
         (flagSource Gen.OptionsTbl.rows inp.args) f := by
   rw [gen_stages] at h
   exact precedence _ inp s gen_registers_current h
+
+/-- **C17 for the code as it is, every spelling of the config flag**: `precedence_spelling` instantiated
+with the regenerated table and stage order -/
+theorem precedence_generated_spelling (inp : Inputs) (s : Settings)
+    (h : run Gen.OptionsTbl.rows Gen.OptionsTbl.stages inp = .ok s)
+    (pre post : List String) (p : String) (w : List String) (hw : w ∈ cfgSpellings p)
+    (hargs : inp.arg0 :: inp.args = pre ++ w ++ post) (hpre : ∀ x ∈ pre, cfgWord x = none) :
+    ∀ f, s f = resolve (defaults Gen.OptionsTbl.rows) (envSource Gen.OptionsTbl.rows inp.env)
+      (fileAt Gen.OptionsTbl.rows inp p) (flagSource Gen.OptionsTbl.rows inp.args) f := by
+  rw [gen_stages] at h
+  exact precedence_spelling _ inp s gen_registers_current h pre post p w hw hargs hpre
+
+/-- **C17 for the code as it is, with the file package `flag` names**: `precedence_config_flag`
+instantiated with the regenerated table and stage order -/
+theorem precedence_generated_config_flag (inp : Inputs) (s : Settings)
+    (h : run Gen.OptionsTbl.rows Gen.OptionsTbl.stages inp = .ok s)
+    (hw : cfgWords (inp.arg0 :: inp.args) = (flagConfigs Gen.OptionsTbl.rows inp.args).length)
+    (h1 : (flagConfigs Gen.OptionsTbl.rows inp.args).length ≤ 1) :
+    ∀ f, s f = resolve (defaults Gen.OptionsTbl.rows) (envSource Gen.OptionsTbl.rows inp.env)
+      (fileAt Gen.OptionsTbl.rows inp (flagConfigPath Gen.OptionsTbl.rows inp.args))
+      (flagSource Gen.OptionsTbl.rows inp.args) f := by
+  rw [gen_stages] at h
+  exact precedence_config_flag _ inp s gen_registers_current h hw h1
 
 end Vflow.C17
